@@ -173,9 +173,12 @@ def dump(obj, depth=0):
     if isinstance(obj, enum.Enum):
         return {'enum': '%s.%s' % (type(obj).__name__, obj.name)}
     if isinstance(obj, datetime.datetime):
-        if obj.tzinfo is not None:
-            return {'datetime': obj.astimezone(datetime.timezone.utc).isoformat(), 'aware': True}
-        return {'datetime': obj.isoformat(), 'aware': False}
+        try:
+            if obj.tzinfo is not None:
+                return {'datetime': obj.astimezone(datetime.timezone.utc).isoformat(), 'aware': True}
+            return {'datetime': obj.isoformat(), 'aware': False}
+        except (ValueError, OverflowError, TypeError):
+            return {'datetime': repr(obj.replace(tzinfo=None)), 'tzinfo': repr(obj.tzinfo)}
     if isinstance(obj, datetime.timedelta):
         return {'timedelta': obj.total_seconds()}
     if isinstance(obj, (set, frozenset)):
@@ -224,7 +227,10 @@ def diff(a, b, path=''):
     if isinstance(a, datetime.datetime) and isinstance(b, datetime.datetime):
         if (a.tzinfo is None) != (b.tzinfo is None):
             return path + ': naive vs aware datetime'
-        return None if a == b else '%s: %s != %s' % (path, a.isoformat(), b.isoformat())
+        try:
+            return None if a == b else '%s: %s != %s' % (path, a.isoformat(), b.isoformat())
+        except (ValueError, OverflowError, TypeError) as e:      # e.g. a tzinfo with an offset beyond 24 h
+            return None if a is b else '%s: datetimes cannot be compared (%r)' % (path, e)
     if isinstance(a, ArrayBase) or isinstance(b, ArrayBase):
         if type(a) is not type(b):
             # a vector and a plain sequence holding the same items are different kinds of value
